@@ -194,7 +194,7 @@ def run_generated(prim, inv_b, order, close_at, lag=0, kind="pv"):
 
     from frequenz.sdk._internal._channels import ChannelRegistry
     from frequenz.sdk.microgrid._data_sourcing import ComponentMetricRequest
-    from frequenz.sdk.timeseries.formula_engine._formula_generators import GridReactivePowerFormula, PVPowerFormula
+    from frequenz.sdk.timeseries.formula_engine._formula_generators import GridReactivePowerFormula, ProducerPowerFormula, PVPowerFormula
     from frequenz.sdk.timeseries.formula_engine._formula_generators._formula_generator import FormulaGeneratorConfig
 
     from .. import fakes
@@ -209,6 +209,11 @@ def run_generated(prim, inv_b, order, close_at, lag=0, kind="pv"):
         conns = {Connection(1, 3), Connection(3, 4), Connection(3, 5)}
         metric = "REACTIVE_POWER"
         gen_cls = GridReactivePowerFormula
+    if kind == "producer-chp":
+        # grid(1) - meter(2) - CHP meter(3) - {CHP 4, CHP 5}: producer power is `#3` with the fallback `#4 + #5`
+        comps = {Component(1, ComponentCategory.GRID), Component(2, ComponentCategory.METER), Component(3, ComponentCategory.METER),
+                 Component(4, ComponentCategory.CHP), Component(5, ComponentCategory.CHP)}
+        gen_cls = ProducerPowerFormula
     L = len(prim)
     out = []
     with virtual_loop() as loop, fakes.fake_microgrid(comps, conns):
@@ -313,7 +318,7 @@ def gen_shard(args) -> Acc:
         for inv_b in ((["v"] * L), (["v", None] * L)[:L]):
             for order in ("pf", "fp"):
                 for close_at, lag, kind in ([(None, 0, "pv")] + [(c, 0, "pv") for c in range(1, L)] + [(None, 1, "pv"), (None, 2, "pv")]
-                                            + [(None, 0, "grid-reactive"), (2, 0, "grid-reactive")]):
+                                            + [(None, 0, "grid-reactive"), (2, 0, "grid-reactive"), (None, 0, "producer-chp")]):
                     out, text, stalled = run_generated(list(prim), inv_b, order, close_at, lag, kind)
                     viol = oracle_generated(list(prim), inv_b, order, close_at, out, lag)
                     if stalled:
@@ -384,7 +389,8 @@ def run(tier: str, seed: int, workers: int):
         "primary stream closed at every position, and the formula's own inputs delivered 0, 1 or 2 steps behind the live fallback stream; non-trivial = some primary sample invalid or the stream closed; plus the generated "
         "PV formula of a PV meter with two inverters (real FallbackFormulaMetricFetcher and registry): all 2^L meter sequences x "
         "inverter-missing pattern x order x (close position | meter samples 1 or 2 steps behind the inverter streams), and the generated "
-        "grid reactive-power formula of a grid meter in front of two inverters (streams of other metrics carry different values)",
+        "grid reactive-power formula of a grid meter in front of two inverters (streams of other metrics carry different values) and the "
+        "generated producer formula of a CHP meter in front of two CHPs",
         "assumptions": [
             "start-up delay made precise: the fallback is started at the first invalid primary timestamp t0; the output for t0, for "
             "the round in which a close is noticed, and for timestamps before the first sample the fallback stream delivers after "
